@@ -323,27 +323,25 @@ inductive StepRes
   | stop (o : Outcome)
   deriving Repr, DecidableEq
 
-/-- one turn of `sly/lex.py:Lexer.tokenize`'s `while True` at a position that is not the end of the text -/
-def lexStep (spec : LexerSpec) (rb s : Text) : StepRes :=
-  match firstRule spec.ic spec.rules s with
+/-- one turn of `sly/lex.py:Lexer.tokenize`'s `while True` at a position that is not the end of the text
+    (`c :: t` is the text from the position on) -/
+def lexStep (spec : LexerSpec) (rb : Text) (c : Char) (t : Text) : StepRes :=
+  match firstRule spec.ic spec.rules (c :: t) with
   | some (name, rest) =>
-    let value := s.take (s.length - rest.length)
+    let value := (c :: t).take ((c :: t).length - rest.length)
     if value.isEmpty then .stop .stuck
     else
       match action spec name rb value with
       | .tok ty v keep => .tok ty v keep
       | .valueError => .stop .valueError
       | .unmodelled => .stop .unmodelled
-  | none =>
-    match s with
-    | c :: _ => if spec.literals.contains c then .tok (String.singleton c) [c] 1 else .stop .lexError
-    | [] => .stop .ok
+  | none => if spec.literals.contains c then .tok (String.singleton c) [c] 1 else .stop .lexError
 
 def lexLoop (spec : LexerSpec) : Nat → Text → Text → List Token × Outcome
   | _, _, [] => ([], .ok)
   | 0, _, _ :: _ => ([], .fuel)
   | fuel + 1, rb, c :: t =>
-    match lexStep spec rb (c :: t) with
+    match lexStep spec rb c t with
     | .stop o => ([], o)
     | .tok ty v keep =>
       if keep == 0 then ([], .stuck)
